@@ -73,6 +73,14 @@ def run(ctx):
                 if r.random() < 0.3:
                     steps.append(f"J:6:{syn_pkt(r, '6')}:{hx(lab)}")
         steps.append("R:t:q:" + hx("s:unix:NoSuchThing:"))
+        if r.random() < 0.35:
+            # the same Database object loaded with another file: the lookups must follow the new contents
+            g = dbgen.valid_file(r, fancy=False)
+            steps.append("L:" + hx(g.text(term="\n")))
+            labs2 = sorted({x[1] for recs in g.expect.values() for x in recs})
+            for lab in (labels[:3] + labs2[:3]):
+                for kind, d in (("m", "n"), ("t", "q"), ("t", "s"), ("h", "q"), ("h", "s")):
+                    steps.append(f"R:{kind}:{d}:{hx(lab)}")
         ops.append("histq\t" + "\t".join(steps))
         files.append(f)
     res = ctx.correspond(ops, label="lookups", canon=canon, tagger=lambda l, a: "load-" + a.split(" ")[0])
